@@ -38,7 +38,7 @@ var xLines = []string{"x=3;lvl=a", "x=1.5;lvl=b", "x=10;lvl=a", "err x=2", "7", 
 
 func xMatchers(r *rand.Rand) string {
 	ms := []string{`a="b"`}
-	if r.Intn(3) == 0 {
+	if !xPlain && r.Intn(3) == 0 {
 		ms = append(ms, []string{`job="api"`, `level=~"err"`, `job=~"ap"`, `c="1"`}[r.Intn(4)])
 	}
 	return "{" + strings.Join(ms, ",") + "}"
@@ -69,6 +69,9 @@ func xPipeline(r *rand.Rand, class *[]string, unwrap bool) string {
 	q := ""
 	jsonSeen := false
 	n := r.Intn(4)
+	if xPlain {
+		n = 0
+	}
 	if r.Intn(6) == 0 { // shortcut-friendly
 		n = 0
 		if r.Intn(2) == 0 {
@@ -95,6 +98,10 @@ var xDurs = []string{"5s", "10s", "15s", "30s", "1m"}
 // set while a topk / bottomk query is generated: long ranges, so that several series meet in one window and the selection drops some
 var xLongRanges bool
 
+// set for half of the topk / bottomk queries: the inner vector keeps every stream with a="b" (no second matcher, no stage, no inner
+// threshold), so that more series than k meet in a window
+var xPlain bool
+
 func xDur(r *rand.Rand) string {
 	if xLongRanges {
 		return []string{"30s", "1m", "1m"}[r.Intn(3)]
@@ -119,7 +126,7 @@ func xGrouping(r *rand.Rand, class *[]string, p int) (string, string) {
 }
 
 func xCmp(r *rand.Rand, class *[]string) string {
-	if r.Intn(4) != 0 {
+	if r.Intn(4) != 0 || xPlain {
 		return ""
 	}
 	*class = append(*class, "cmp")
@@ -148,7 +155,11 @@ func xQuery(r *rand.Rand) (string, []string) {
 		fn := []string{"topk", "bottomk"}[r.Intn(2)]
 		class = append(class, fn)
 		xLongRanges = true
-		defer func() { xLongRanges = false }()
+		xPlain = r.Intn(2) == 0
+		if xPlain {
+			class = append(class, "topk-plain")
+		}
+		defer func() { xLongRanges, xPlain = false, false }()
 		var inner string
 		if r.Intn(3) == 0 {
 			inner = xLRA(r, &class, false)
@@ -161,6 +172,7 @@ func xQuery(r *rand.Rand) (string, []string) {
 			}
 			inner = agg + pre + " (" + xLRA(r, &class, false) + ")" + suf
 		}
+		xPlain = false
 		return fn + "(" + []string{"0", "1", "1", "2", "3"}[r.Intn(5)] + ", " + inner + ")" + xCmp(r, &class), class
 	}
 	switch r.Intn(10) {
@@ -291,6 +303,19 @@ func genMetricDB(r *rand.Rand, id int, ndb int) Case {
 		c.Ctx.FromNs = c.Ctx.FromNs / d * d
 		c.Ctx.ToNs = (c.Ctx.ToNs + d - 1) / d * d
 		c.Class = append(c.Class, "window-whole-ranges")
+	}
+	// topk / bottomk are judged when the step does not re-bucket the selection (step <= range): most of them get such a step
+	if m := reRange.FindStringSubmatch(q); m != nil && (strings.HasPrefix(q, "topk") || strings.HasPrefix(q, "bottomk")) && r.Intn(4) != 0 {
+		n, _ := strconv.ParseInt(m[1], 10, 64)
+		if m[2] == "m" {
+			n *= 60
+		}
+		if c.Ctx.StepMs > n*1000 {
+			c.Ctx.StepMs = []int64{1000, 5000, 10000, 15000, 30000}[r.Intn(5)]
+			if c.Ctx.StepMs > n*1000 {
+				c.Ctx.StepMs = n * 1000
+			}
+		}
 	}
 	fillDBs(r, &c, ndb)
 	return c
